@@ -510,6 +510,9 @@ def init_xml_of(odfdo, rng, kind, maxw, maxh):
         return tl.g_rle_table(rng, maxw, maxh)
     if kind == 'wrapped':
         return tg.g_wrapped_table(rng, maxw, maxh)
+    if kind == 'xf':
+        import tablexf      # tables that end with empty / repeated empty row elements and trailing empty cells: something for rstrip / optimize_width to lose (or just not)
+        return tablexf.g_xf_table(rng, maxw, maxh)
     s = tl.sample_tables()
     return s[rng.randrange(len(s))][1] if s else '<table:table table:name="t"/>'
 
@@ -535,7 +538,11 @@ def gen_case(odfdo, seed, kind, nsteps, kinds=tl.OPS_CORE, maxw=8, maxh=8, reloa
             if rng.random() < p_read:
                 todo += [dict(read=g_fill_read(rng, nodes)) for _ in range(rng.choice([1, 1, 2]))]
             x_ = rng.random()
-            if x_ < p_opaque:
+            if kind == 'xf' and rng.random() < (0.7 if _ == 0 else 0.25):
+                # a whole-table transformation early in the history of a table built for them
+                k_ = rng.choice(['optimize_width', 'optimize_width', 'rstrip', 'transpose'])
+                todo.append(dict(opaque=[k_, rng.random() < 0.5] if k_ == 'rstrip' else [k_]))
+            elif x_ < p_opaque:
                 o_ = g_opaque(rng, nodes)
                 if o_[0] == 'del_span' and spans and rng.random() < 0.7:
                     o_ = ['del_span'] + list(rng.choice(spans))       # a span an earlier set_span of this history has made
